@@ -41,4 +41,18 @@ esac
 if [ "$tier" = "--replay" ]; then
   exec $bin replay "$3"
 fi
+if [ "$id" = "C09" ] && [ "$tier" = "thorough" ] && command -v go1.26.8 >/dev/null 2>&1; then
+  # supplementary pass: the same workload built with go1.26.8, whose Swiss-table maps
+  # enumerate in a fully randomised order (not rotations of insertion order). Its
+  # evidence goes to evidence/C09-go1.26.8.json; the registered evidence file is
+  # written by the default-toolchain run below. Either pass failing fails the check.
+  if GOTOOLCHAIN=local go1.26.8 build $MODFLAG -tags "$TAGS" -o $BIN-go126.tmp.$$ ./cmd/vcheck 2>work/go126.build.log && mv -f $BIN-go126.tmp.$$ $BIN-go126; then
+    VERIF_EVIDENCE_NAME=C09-go1.26.8 VERIF_WORKDIR_SUFFIX=-go126 $BIN-go126 run C09 thorough; rc126=$?
+  else
+    echo "NOTE: go1.26.8 build not available (see work/go126.build.log); supplementary pass skipped"; rc126=0
+  fi
+  $bin run "$id" "$tier"; rc=$?
+  [ $rc126 -ne 0 ] && [ $rc -eq 0 ] && rc=$rc126
+  exit $rc
+fi
 exec $bin run "$id" "$tier"
